@@ -92,6 +92,54 @@ func exportedBufferWriters(p *Prog) []string {
 }
 
 func runC32(c *Ctx) {
+	c.Rule("C32.DUPKEY", "PATH: in the typed columnar decoder a repeated routing key (`m`, `columns`) makes it decline — the branch taken when the key was already seen cannot reach the next loop iteration. The raw request bytes go to the WAL and to replication, whose generic decoder keeps the LAST duplicate; if the typed path kept the first, the permission check and the replay would see different measurements")
+	if fn := c.MustFunc("C32.DUPKEY", "(*internal/ingest.MessagePackDecoder).tryDecodeColumnarTyped"); fn != nil {
+		n := 0
+		for _, in := range instrs(fn, false) {
+			ifi, ok := in.(*ssa.If)
+			if !ok {
+				continue
+			}
+			ph, ok := ifi.Cond.(*ssa.Phi)
+			if !ok || ph.Type().String() != "bool" {
+				continue
+			}
+			// a loop-carried flag: its block dominates one of its own predecessors
+			header := false
+			for _, pr := range ph.Block().Preds {
+				if ph.Block().Dominates(pr) {
+					header = true
+				}
+			}
+			if !header || !blockInCycle(ifi.Block()) {
+				continue
+			}
+			n++
+			reaches := false
+			seen := map[*ssa.BasicBlock]bool{}
+			var dfs func(b *ssa.BasicBlock)
+			dfs = func(b *ssa.BasicBlock) {
+				if seen[b] {
+					return
+				}
+				seen[b] = true
+				if b == ph.Block() {
+					reaches = true
+					return
+				}
+				for _, sc := range b.Succs {
+					dfs(sc)
+				}
+			}
+			dfs(ifi.Block().Succs[0])
+			name := ph.Comment
+			if name == "" {
+				name = fmt.Sprintf("flag#%d", n)
+			}
+			c.Check(!reaches, "C32.DUPKEY", "tryDecodeColumnarTyped|repeated-"+name+"-declines", ifi.Pos(), "a repeated key leaves the typed path", "when the key guarded by `"+name+"` repeats, the typed decoder carries on with the first value: `{m:\"allowed\", columns:…, m:\"secret\"}` is permission-checked and buffered as `allowed`, while the WAL replay and the replication follower decode the same bytes generically (last key wins) and store the rows under `secret`")
+		}
+		c.Check(n >= 2, "C32.DUPKEY", "tryDecodeColumnarTyped|seen-flags", fn.Pos(), fmt.Sprintf("%d seen-flags guard their keys", n), "expected the two seen-flags (m, columns) to guard their switch arms")
+	}
 	p := c.P
 	c.Rule("C32.API", "COVER: every exported ArrowBuffer method that takes a database and reaches the internal write path is in the checker's table of buffer-write entry points (so no write entry escapes the rules below)")
 	c.Rule("C32.SWITCH", "AGREE: every concrete record type ArrowBuffer.Write stores is reported by extractMeasurements (unconditionally, through its Measurement field), and Write's default arm refuses the request")
